@@ -797,6 +797,11 @@ func (c *compiler) nilsOperator(l interface{}, r interface{}, op string) (interf
 }
 
 func (c *compiler) boolsOperator(l interface{}, r interface{}, op string) (interface{}, error) {
+	if _, ok := r.(bool); !ok && (op == "==" || op == "!=") {
+		// true == 1 is a mismatch, as 1 == true is, not a test of 1's truthiness
+		return nil, fmt.Errorf("unable to operate (%s) on %T and %T ", op, l, r)
+	}
+
 	lt := c.isTruthy(l)
 	rt := c.isTruthy(r)
 
